@@ -5,6 +5,7 @@ use std::collections::HashMap;
 mod auth;
 mod cluster;
 mod decode;
+mod waitw;
 mod derive;
 mod life;
 mod mailbox;
@@ -90,6 +91,7 @@ fn main() {
         "pg" => pg::run(&args),
         "pg_race" => pg::race(&args),
         "decode_drop" => decode::run(&args),
+        "wait_wrappers" => waitw::run(&args),
         "job_meta" => decode::job_meta(&args),
         "derive_decode" => derive::decode(&args),
         "derive_roundtrip" => derive::roundtrip(&args),
